@@ -193,6 +193,48 @@ theorem toTokens_boundary : ∀ (ls : List Lexeme) (pre post : List Char) (t : T
     · have := ih (pre ++ l.text) post t (by rw [utf8Len_append]; exact h)
       simpa [texts, List.append_assoc] using this
 
+
+/-! ### the loop as recursion on the remaining input -/
+
+/-- The tokenizer loop written as plain recursion on the *remaining input*: Lean's termination checker accepts it
+because (`lexStep_progress`) every iteration consumes at least one character when the tables satisfy `TablesOk`. -/
+def lexWF (C : Classes) (T : Tables) (ok : TablesOk T = true) (cs : List Char) : List Lexeme :=
+  match cs with
+  | [] => []
+  | c :: rest =>
+    ⟨(lexStep C T (c :: rest)).1, (c :: rest).take (lexStep C T (c :: rest)).2⟩ ::
+      lexWF C T ok ((c :: rest).drop (lexStep C T (c :: rest)).2)
+termination_by cs.length
+decreasing_by
+  have := lexStep_progress (tablesOk_iff T ok) C (c :: rest) (by simp)
+  simp only [List.length_drop, List.length_cons] at this ⊢
+  omega
+
+/-- the fuel-driven loop of the executable model computes exactly the recursion on the remaining input -/
+theorem lexWF_eq_lex (C : Classes) (T : Tables) (ok : TablesOk T = true) :
+    ∀ (n : Nat) (cs : List Char), cs.length ≤ n → lexWF C T ok cs = lex C T cs := by
+  intro n
+  induction n with
+  | zero =>
+    intro cs h
+    have : cs = [] := List.eq_nil_of_length_eq_zero (by omega)
+    subst this
+    unfold lexWF; rfl
+  | succ n ih =>
+    intro cs h
+    cases cs with
+    | nil => unfold lexWF; rfl
+    | cons c rest =>
+      have hp := lexStep_progress (tablesOk_iff T ok) C (c :: rest) (by simp)
+      have hlen : ((c :: rest).drop (lexStep C T (c :: rest)).2).length ≤ n := by
+        simp only [List.length_drop, List.length_cons] at h hp ⊢; omega
+      have hlen2 : ((c :: rest).drop (lexStep C T (c :: rest)).2).length ≤ rest.length := by
+        simp only [List.length_drop, List.length_cons] at hp ⊢; omega
+      unfold lexWF
+      rw [ih _ hlen]
+      simp only [lex, List.length_cons, lexLoop]
+      rw [lexLoop_fuel (tablesOk_iff T ok) C rest.length _ hlen2 _ (Nat.le_refl _)]
+
 /-- the lexemes of `tokenize` concatenate to the input and are non-empty, non-`Eof` -/
 theorem lexemes_spec (C : Classes) (T : Tables) (ok : TablesOk T = true) (s : List Char) :
     texts (splitProj none (lex C T s)) = s ∧ ∀ l ∈ splitProj none (lex C T s), l.text ≠ [] ∧ l.kind ≠ Kind.Eof := by
